@@ -504,6 +504,8 @@ def _norm1(e, ctx):
     if k == 'attr':
         if e[1][0] == 'slice' and e[2] in ('start', 'stop', 'step'):
             return e[1][{'start': 1, 'stop': 2, 'step': 3}[e[2]]]
+        if e[2] == 'value' and e[1][0] == 'enum' and len(e[1]) >= 4 and isinstance(e[1][3], int):
+            return ('const', e[1][3])                   # Member.value
         # wiring.flipped(x) is a proxy: its signature is x's flipped, every plain attribute (the memory map, the widths) is x's own
         if e[1][0] == 'call' and e[1][1] == ('name', 'flipped') and len(e[1][2]) == 1 and not e[1][3]:
             if e[2] == 'signature':
@@ -572,6 +574,10 @@ def _norm1(e, ctx):
                     if val == a[1]:
                         return ('enum', cn, mem, val)
             return None
+        if fn == ('name', 'Signal') and len(args) == 1 and args[0][0] == 'call' and args[0][1] == ('name', 'ceil_log2') and \
+                len(args[0][2]) == 1 and not args[0][3] and args[0][2][0][0] != 'const':
+            # an unsigned register of ceil_log2(N) bits is the register that holds 0 .. N-1: Signal(range(N))
+            return ('call', fn, (('call', ('name', 'range'), (args[0][2][0],), ()),), kwargs)
         if fn in (('name', 'Signal'), ('attr', ('name', 'Signal'), 'like')) and (args or kwargs):
             # explicit defaults say nothing: Signal(unsigned(n)) == Signal(n), Signal(1) == Signal(), init=0, reset_less=False
             a2 = list(args)
@@ -880,6 +886,9 @@ def _norm1(e, ctx):
             tab = ctx.enums.get(ck) if ck and ck != '@methods' else None
             if tab and all(isinstance(v_, str) and m_ == v_.upper() for m_, v_ in tab.items()):
                 return ('call', b, (s_[1][1],), ())
+        # bit i of Mux(c, X, 0) is c & X[i] (a bit X does not have would be an error in the spelled-out form, not a value)
+        if e[2][0] != 'slice' and b[0] == 'call' and b[1] == ('name', 'Mux') and len(b[2]) == 3 and not b[3] and b[2][2] == ('const', 0):
+            return ('nary', '&', (b[2][0], ('sub', b[2][1], e[2])))
         # bit i of a vector masked by a strobe replicated to the vector's own length: (X & S.replicate(len(X)))[i] == X[i] & S
         if e[2][0] != 'slice' and ((b[0] == 'nary' and b[1] == '&' and len(b[2]) == 2) or (b[0] == 'bin' and b[1] == '&')):
             ops_ = b[2] if b[0] == 'nary' else (b[2], b[3])
